@@ -53,7 +53,8 @@ def solve_file(path, timeout, backends=('z3e', 'z3', 'cvc5')):
             for b, pr in list(procs.items()):
                 if pr.poll() is not None:
                     out = (pr.stdout.read().strip().split('\n') or [''])[0].strip()
-                    done[b] = (out or 'error', int((time.time() - t0) * 1000))
+                    if not out: out = 'timeout' if 'timeout' in (pr.stderr.read() or '') else 'error'
+                    done[b] = (out, int((time.time() - t0) * 1000))
                     del procs[b]
                     if out == 'unsat':
                         verdict, used = 'unsat', b; raise StopIteration
